@@ -474,6 +474,14 @@ theorem join_from_any_state (sz n : Nat) (ops : List Op) (h a : Nat) (l : RawLis
 example : (step 8 (runSt 8 (St.init 1) [.fromVec 0 [0, 1, 0, 2]]) (.join 0 [44])).1
     = .str [44, 115, 49, 44, 44, 115] := by decide
 
+/-- the strings the element values of a `List[String]` stand for (empty, prefix
+    of another, multi-byte, differing in case, … and `"s<v>"`) are pairwise
+    distinct: comparing element values in the model is comparing the strings -/
+theorem string_elements_distinct (v w : Nat) : elemStr v = elemStr w ↔ v = w :=
+  ⟨elemStr_injective, fun h => h ▸ rfl⟩
+
+example : elemStr 0 = [] ∧ elemStr 2 = [115] ∧ elemStr 12 = [115, 49, 50] := by decide
+
 /-! ### the defect of the pinned tree -/
 
 /-- two distinct lists with equal contents, as `List::from([1])` twice -/
